@@ -356,9 +356,10 @@ func calcStatusCode(cfg *ResponseConfig, a *asset, segmentPart string, nowMS int
 		// Use nowMS = cycleStart to look up the latest segment published at that time
 		firstNr := 0
 		if nrWraps > 0 {
-			lastNr := findLastSegNr(cfg, a, wrapStartS*1000, segMeta.rep)
+			lastNr := findLastSegNr(cfg, a, (wrapStartS+cfg.StartTimeS)*1000, segMeta.rep)
 			firstNr = lastNr + 1
 		}
+		firstNr += cfg.getStartNr() // requested segment numbers are counted from the start number
 		segTime := findSegStartTime(a, cfg, firstNr, segMeta.rep)
 		if segTime < wrapStartS*repTimescale {
 			firstNr += 1
